@@ -2,7 +2,8 @@
 C08 driver — model side of the regex-radix-tree correspondence (also used by C12, see Drivers/C12.lean).
 
 case: {"mode": "beh"|"snap"|"rx"|"cp", "ic": bool, "unique": bool, "ops": [op..], "hay": [string..]}
-  op  = ["i", pat, id, v] | ["r", id] | ["k", [id..]] | ["m", [id..], delta] | ["c", limit, level|null]
+  op  = ["i", pat, id, v] | ["r", id] | ["k", [id..]] | ["m", [id..], delta] | ["u", pat, delta] | ["c", limit, level|null]
+        ("u": `get_mut(pattern)` and `*v += delta` on every value returned)
         ("m": retain whose closure adds `delta` to the value (`&mut V`) and keeps the ids listed)
   pat = [["l", text] | ["g", body] ..]     (literal text is escaped char by char, a group is "(" body ")")
   unique=true: `UniqueRegexTreeMap` (the id of an insert is the rendered pattern; "r" takes that string).
@@ -18,6 +19,8 @@ mode real: the case carries "snaps": `verif_snapshot()` of the REAL tree after e
            "s" = linear scan of the live entries; both carry the flags {inv, contents}.  A real state violating
            the invariant is an oracle failure with sig inv-broken-on-real-state (contents differing from the live
            entries: contents-mismatch-on-real-state).
+mode trace: after the last op, per haystack the `trace(haystack)` tree {regex, count, matched, children, values(sorted)}
+           (the harness parses the `Debug` rendering of the real `Trace`).
 mode rx  : per pattern {p, ok, m[per haystack], pre[[k, ok, m[..]] per scanner-boundary k]} – validates
            Model/Regex (+ render, + the scanner) against the real crate.
 mode cp  : {"a","b","n"} -> [common_prefix_char_size(a,b), get_prefix_with_char_size(a,n)]
@@ -51,6 +54,7 @@ inductive DOp where
   | rem (id : String)
   | keep (ids : List String)
   | mut (ids : List String) (delta : Nat)
+  | upd (p : List Char) (delta : Nat)
   | cache (limit : Nat) (level : Option Nat)
 
 def parseOp (unique : Bool) (j : Json) : Except String DOp := do
@@ -75,6 +79,11 @@ def parseOp (unique : Bool) (j : Json) : Except String DOp := do
     let ids ← (fromJson? a[1]! : Except String (Array String))
     let delta ← (fromJson? a[2]! : Except String Nat)
     return .mut ids.toList delta
+  else if k == "u" then
+    if a.size != 3 then throw "u arity"
+    let p ← parsePat a[1]!
+    let delta ← (fromJson? a[2]! : Except String Nat)
+    return .upd p delta
   else if k == "c" then
     if a.size != 3 then throw "c arity"
     let limit ← (fromJson? a[1]! : Except String Nat)
@@ -92,6 +101,7 @@ def toOp : DOp → Op String Nat
   | .rem id => .remove id
   | .keep ids => .retain (keepIf fun id _ => ids.contains id)
   | .mut ids delta => .retain (mutF ids delta)
+  | .upd p delta => .modify p (fun _ v => v + delta)
   | .cache l lv => .cache l lv
 
 def sortNat (l : List Nat) : List Nat := l.mergeSort (· ≤ ·)
@@ -116,7 +126,7 @@ def dedup (l : List (List Char)) : List (List Char) :=
   l.foldl (fun acc p => if acc.contains p then acc else acc ++ [p]) []
 
 def patsOf (ops : List DOp) : List (List Char) :=
-  dedup (ops.filterMap fun | .ins p _ _ => some p | _ => none)
+  dedup (ops.filterMap fun | .ins p _ _ => some p | .upd p _ => some p | _ => none)
 
 /-- The domain of the property for one pattern. -/
 def domGood (p : List Char) : Bool := goodPatB p && !p.isEmpty
@@ -142,6 +152,8 @@ def stepOp (st : Step) (op : DOp) : Step :=
     { tree := st.tree.retain f, ref := refRetain st.ref f }
   | .mut ids delta =>
     { tree := st.tree.retain (mutF ids delta), ref := refRetain st.ref (mutF ids delta) }
+  | .upd p delta =>
+    { tree := st.tree.modifyAt p (fun _ v => v + delta), ref := refModify st.ref p (fun _ v => v + delta) }
   | .cache limit level =>
     match treeCache E st.tree limit level with
     | some r => { tree := r.1, ref := st.ref, ret := toJson r.2 }
@@ -155,7 +167,9 @@ def obsBeh (unique : Bool) (hay pats : List (List Char)) (st : Step) : Json :=
     ("find", Json.arr (hay.map fun s => jNats (sortNat (t.find E s))).toArray),
     ("get", Json.arr (pats.map fun p =>
         if unique then jNats ((t.get p).getLast?.toList) else jNats (sortNat (t.get p))).toArray),
-    ("iter", jNats (sortNat t.iterVals)),
+    ("iter", match t.iterCollect with          -- the stack machine of iter.rs
+             | some l => jNats (sortNat l)
+             | none => toJson "iterator out of fuel"),
     ("rem", st.rem)]
 
 def refRemVal (L : List (Entry String Nat)) (op : DOp) : Json :=
@@ -219,6 +233,10 @@ def contentsOk (ps : Parsed) (L : List (Entry String Nat)) : Bool :=
 def withFlags (j : Json) (inv contents : Bool) : Json :=
   j.setObjVal! "inv" (toJson inv) |>.setObjVal! "contents" (toJson contents)
 
+partial def traceJson : Trace Nat → Json
+  | .mk r c m cs vs => Json.mkObj [("regex", jStr r), ("count", toJson c), ("matched", toJson m),
+      ("children", Json.arr (cs.map traceJson).toArray), ("values", jNats (sortNat vs))]
+
 def boundaryKs (p : List Char) : List Nat :=
   (List.range (p.length + 1)).filter fun k => k > 0 && (scan b0 (p.take k)).atBoundary
 
@@ -253,6 +271,11 @@ def handle (j : Json) : Except String Json := do
   let steps := stepsRev.reverse
   if mode == "snap" then
     return Json.mkObj [("m", Json.arr (steps.map fun (st, _) => obsSnap ic st).toArray)]
+  if mode == "trace" then
+    let t : T := match steps.getLast? with
+      | some (st, _) => st.tree
+      | none => .empty ic
+    return Json.mkObj [("m", Json.arr (hay.map fun h => traceJson (t.trace E h)).toArray)]
   let idsOk := histOk (fun _ => true) ([] : List (Entry String Nat)) (ops.map toOp)
   let allGood := pats.all domGood
   let allTok := pats.all domTok
@@ -272,10 +295,16 @@ def handle (j : Json) : Except String Json := do
     let invAll := parsed.all (·.2.2.1)
     let cokAll := parsed.all (·.2.2.2)
     if !invAll then
-      return Json.mkObj [("m", m), ("s", if idsOk && allGood then s else m), ("sig", "inv-broken-on-real-state"),
+      -- the real state violates the invariant: an oracle failure whatever the domain
+      return Json.mkObj [("m", if idsOk then m else Json.null),
+        ("s", if idsOk then m else toJson "the real tree violates Inv"), ("sig", "inv-broken-on-real-state"),
         ("tags", Json.arr #["inv-broken-on-real-state"])]
+    else if !idsOk then
+      -- an id used under two patterns: the flat list is not authoritative (which entry `remove` takes depends on
+      -- tree order); only the invariant was checked
+      return Json.mkObj [("tags", Json.arr #["out-of-domain", "real:inv-only"])]
     else if !cokAll then
-      return Json.mkObj [("m", m), ("s", if idsOk && allGood then s else m), ("sig", "contents-mismatch-on-real-state"),
+      return Json.mkObj [("m", m), ("s", s), ("sig", "contents-mismatch-on-real-state"),
         ("tags", Json.arr #["contents-mismatch-on-real-state"])]
     else if idsOk && allGood then
       return Json.mkObj [("m", m), ("s", s)]
